@@ -97,19 +97,17 @@ def searchKey (l : FIdx) (e : Entry) : Option Nat :=
   let (lo, hi) := rangeEqual l e.1
   keyScan l e.2 hi lo (hi - lo)
 
-/-- `fieldIndex.Delete`; `none` = the Go code panics ("object id not found" / "key not found") -/
-def FIdx.delete (l : FIdx) (oid : Nat) : Option FIdx :=
+/-- `fieldIndex.Delete`: an unknown oid is ignored; when bisection does not find the entry
+    (index not ordered) it is looked for linearly -/
+def FIdx.delete (l : FIdx) (oid : Nat) : FIdx :=
   match l.byOid oid with
-  | none => none
+  | none => l
   | some e => match searchKey l e with
-    | none => none
-    | some i => some (l.eraseIdx i)
+    | some i => l.eraseIdx i
+    | none => l.erase e
 
 /-- `fieldIndex.Update` -/
-def FIdx.update (l : FIdx) (v : Val) (oid : Nat) : Option FIdx :=
-  match l.delete oid with
-  | none => none
-  | some l' => some (l'.insert (v, oid))
+def FIdx.update (l : FIdx) (v : Val) (oid : Nat) : FIdx := (l.delete oid).insert (v, oid)
 
 /-- `fieldIndex.Constrain` -/
 def FIdx.constrain (l : FIdx) (fields : FIdx) : FIdx :=
